@@ -39,7 +39,7 @@ for pid in sorted(claimed):
         "replay_cmd_template": "bin/symgo replay -file {path}",
         "engine": "symgo",
         "level_claimed": {"category": "model_checking", "text": "Bounded: " + text + ". Within the stated bounds every obligation is decided by the solver (unsat = holds for every value, sat = concrete counterexample replayed against the real build); nothing is claimed outside the bounds.", "design_ref": ref},
-        "level_note": "trusted: symgo's SSA semantics and string/regex/map/channel theories (cross-checked on every model and by native replay), the stubs listed in the evidence file (zap, prometheus, fmt, json, uuid, time, sync, os FIFO model), z3 5.1.0 (thorough tier re-checks unsat answers with z3 4.8.12)",
+        "level_note": "trusted: symgo's SSA semantics and string/regex/map/channel theories (cross-checked on every model and by native replay), the stubs listed in the evidence file (zap, prometheus, fmt, json, uuid, time, sync, os FIFO model), z3 5.1.0 (the thorough tier re-checks the first 16 unsat answers of each run with z3 4.8.12, except for C05 and C11 where the second solver does not terminate in time)",
         "technique": TECH,
     })
 man = {
